@@ -11,3 +11,58 @@ Definition H3 (K mu : R) : R := mu * (3 * K / 2 + 4 * mu / 3) / (K + 2 * mu).
 Definition H2 (K mu : R) : R := mu * K / (K + 2 * mu).
 Definition admissible (f0 f1 K0 K1 m0 m1 : R) : Prop :=
   0 < f0 /\ 0 < f1 /\ f0 + f1 = 1 /\ 0 < K0 /\ 0 < K1 /\ 0 < m0 /\ 0 < m1.
+
+(* ---- any number of phases: a microstructure is a list of (volume fraction, modulus) *)
+Definition sumg (g : R -> R -> R) (l : list (R * R)) : R := fold_right (fun p a => g (fst p) (snd p) + a) 0 l.
+Definition sumf (l : list (R * R)) : R := sumg (fun f _ => f) l.
+Definition sumq (l : list (R * R)) (z : R) : R := sumg (fun f x => f / (z + x)) l.
+Definition Phi (l : list (R * R)) (z : R) : R := 1 / sumq l z - z.
+Definition reuss (l : list (R * R)) : R := 1 / sumg (fun f x => f / x) l.
+Definition voigt (l : list (R * R)) : R := sumg (fun f x => f * x) l.
+Definition adm (l : list (R * R)) : Prop := Forall (fun p => 0 < fst p /\ 0 < snd p) l /\ sumf l = 1.
+(* smallest / largest element of a non-empty list *)
+Fixpoint lmin (l : list R) : R := match l with [] => 0 | [x] => x | x :: t => Rmin x (lmin t) end.
+Fixpoint lmax (l : list R) : R := match l with [] => 0 | [x] => x | x :: t => Rmax x (lmax t) end.
+(* phases (f, K, mu); kstar mu = 2 (d-1)/d mu : 4/3 mu in 3D, mu in plane strain *)
+Definition kstar3 (mu : R) : R := 4 / 3 * mu.
+Definition kstar2 (mu : R) : R := mu.
+Definition fK (ph : list (R * R * R)) := map (fun p => (fst (fst p), snd (fst p))) ph.
+Definition fM (ph : list (R * R * R)) := map (fun p => (fst (fst p), snd p)) ph.
+Definition mus (ph : list (R * R * R)) := map (fun p => snd p) ph.
+Definition Hs (H : R -> R -> R) (ph : list (R * R * R)) := map (fun p => H (snd (fst p)) (snd p)) ph.
+Definition adm3 (ph : list (R * R * R)) : Prop :=
+  Forall (fun p => 0 < fst (fst p) /\ 0 < snd (fst p) /\ 0 < snd p) ph /\ sumf (fK ph) = 1.
+(* [K_HS-; mu_HS-; K_HS+; mu_HS+] *)
+Definition hs_spec (kstar : R -> R) (H : R -> R -> R) (ph : list (R * R * R)) : list R :=
+  [Phi (fK ph) (kstar (lmin (mus ph))); Phi (fM ph) (lmin (Hs H ph)); Phi (fK ph) (kstar (lmax (mus ph))); Phi (fM ph) (lmax (Hs H ph))].
+
+(* ---- isotropic fourth-order tensors in the 6x6 (3D) and 4x4 (plane strain) notations of the library, row major *)
+Definition J6 : list R := [1/3;1/3;1/3;0;0;0; 1/3;1/3;1/3;0;0;0; 1/3;1/3;1/3;0;0;0; 0;0;0;0;0;0; 0;0;0;0;0;0; 0;0;0;0;0;0].
+Definition I6 : list R := [1;0;0;0;0;0; 0;1;0;0;0;0; 0;0;1;0;0;0; 0;0;0;1;0;0; 0;0;0;0;1;0; 0;0;0;0;0;1].
+Definition lin2 (a : R) (u : list R) (b : R) (v : list R) : list R := map (fun p => a * fst p + b * snd p) (combine u v).
+Definition K6 : list R := lin2 1 I6 (-1) J6.
+(* 3 k J + 2 mu K *)
+Definition iso6 (k mu : R) : list R := lin2 (3 * k) J6 (2 * mu) K6.
+Definition J4 : list R := [1/3;1/3;1/3;0; 1/3;1/3;1/3;0; 1/3;1/3;1/3;0; 0;0;0;0].
+Definition I4 : list R := [1;0;0;0; 0;1;0;0; 0;0;1;0; 0;0;0;1].
+Definition iso4 (k mu : R) : list R := lin2 (3 * k) J4 (2 * mu) (lin2 1 I4 (-1) J4).
+(* product of two n x n matrices stored row major *)
+Definition mget (n : nat) (a : list R) (i j : nat) : R := nth (i * n + j) a 0.
+Definition mmul (n : nat) (a b : list R) : list R :=
+  flat_map (fun i => map (fun j => fold_right (fun k s => mget n a i k * mget n b k j + s) 0 (seq 0 n)) (seq 0 n)) (seq 0 n).
+(* sections of a long output list *)
+Definition slice (o n : nat) (l : list R) : list R := firstn n (skipn o l).
+(* Young modulus and Poisson ratio of an isotropic material of bulk modulus K and shear modulus G *)
+Definition Efrom (K G : R) : R := 9 * K * G / (3 * K + G).
+Definition nufrom (K G : R) : R := (3 * K - 2 * G) / (2 * (3 * K + G)).
+(* Mori-Tanaka / Hashin-Shtrikman moduli of a two-phase composite with matrix 0 (fractions 1-f, f): Phi at the z of the matrix *)
+Definition mtK (k0 m0 f ki : R) : R := Phi [(1 - f, k0); (f, ki)] (4 / 3 * m0).
+Definition mtM (k0 m0 f mi : R) : R := Phi [(1 - f, m0); (f, mi)] (H3 k0 m0).
+(* dilute estimate for spheres: first order in f with the strain localisation of a single sphere in the matrix *)
+Definition locK (k0 m0 ki : R) : R := (k0 + 4 / 3 * m0) / (ki + 4 / 3 * m0).
+Definition locM (k0 m0 mi : R) : R := (m0 + H3 k0 m0) / (mi + H3 k0 m0).
+Definition dilK (k0 m0 f ki : R) : R := k0 + f * (ki - k0) * locK k0 m0 ki.
+Definition dilM (k0 m0 f mi : R) : R := m0 + f * (mi - m0) * locM k0 m0 mi.
+(* spherical Eshelby tensor alpha J + beta K of a matrix (k, m): alpha = 3k/(3k+4m), beta = 6(k+2m)/(5(3k+4m)) *)
+Definition alphaS (k m : R) : R := 3 * k / (3 * k + 4 * m).
+Definition betaS (k m : R) : R := 6 * (k + 2 * m) / (5 * (3 * k + 4 * m)).
